@@ -417,3 +417,27 @@ package container
 //@ func iface:container.CredGenerator.Get
 //@   assumed "user-supplied credential generator"
 //@   pure
+
+// ---- gob framing of commands and replies (C19): one datagram carries exactly the encoding of this
+// call's value - nothing left over from an earlier (failed) send - and at most bufferSize bytes ----
+//@ func container.(*socket).SendMsg props C19
+//@   arith int
+//@   requires s != nil && s.Socket != nil && s.Socket.UnixConn != nil && s.encoder != nil
+//@   assigns SB.clean, SB.len, B.n, B.item
+//@   callsite (*Encoder).Encode: assert @C19 SB.clean
+//@   callsite (*Socket).SendMsg: assert @C19 SB.len <= 32768 && m == msg
+
+//@ func container.(*bufferRotator).Rotate
+//@   arith int
+//@   requires b != nil
+//@   assigns b.Buffer
+//@   ensures b.Buffer == buffer
+
+// a received datagram is decoded from exactly the n bytes that arrived with it
+//@ func container.(*socket).RecvMsg props C19
+//@   arith int
+//@   requires s != nil && s.Socket != nil && s.Socket.UnixConn != nil && len(s.Socket.recvBuff) == 4096 && s.decoder != nil
+//@   assigns all(s.buff), all(s.Socket.recvBuff), s.recvBuff.Buffer, S.nrights, S.right, S.flags, FD.closed
+//@   ensures @C19 err != nil ==> len(msg.Fds) == 0 && all_arrived_closed()
+//@   ensures @C19 err == nil ==> len(msg.Fds) == S.nrights && forall k int :: 0 <= k && k < S.nrights ==> msg.Fds[k] == S.right[k] && !FD.closed[S.right[k]]
+//@   callsite bytes.NewBuffer: assert @C19 len(buf) <= len(s.buff)
